@@ -354,9 +354,16 @@ def validate_traces(sc, module, cfg, traces, batch=2000, timeout=900, deque=Fals
     t0 = time.time()
     idx = list(range(len(traces)))
     pending = [idx[i:i + batch] for i in range(0, len(idx), batch)]
+    # VERIF_MAX_REJECTED=n (seed sweeps only): stop looking after n rejected traces of one call. Not set in a
+    # normal run: traces rejected for a known finding must not hide a different violation behind them.
+    cap = int(os.environ.get("VERIF_MAX_REJECTED", "0")) or 10 ** 9
     while pending:
         b = pending.pop(0)
         if not b:
+            continue
+        if len(val.failures) + len(val.gaps) >= cap:
+            # enough rejected traces to report; the traces after them in this call are not examined
+            val.unexamined = getattr(val, "unexamined", 0) + len(b)
             continue
         rows = []
         starts = []
